@@ -13,10 +13,12 @@ TIE = ('tie A: setter/flag and artefact/parameter tables extracted from SlurryOb
 TECHNIQUE = 'Lean 4 invariant proof over an invalidation state machine parametrised by tables extracted from the source + event-stream correspondence'
 PROVED = ['for every adequate (raises, reads) table pair and EVERY operation history, a read serves an artefact computed from the current parameters '
           '(restricted to what the artefact reads) and the current grading shape (induction over the history)',
-          'the tables and structural facts extracted from the current source are adequate (by evaluation)']
+          'the tables and structural facts extracted from the current source are adequate (by evaluation): flags counted only when raised by the unconditional leading '
+          'assignments of a setter, no setter can be left early, the class holds no mutable container of its own, every curve artefact is bound to a newly built object '
+          '(never refreshed in place), so shallow copies share nothing that is written later']
 HYPOTHESES = ['grading-shape recovery from the stored grading is exact in R (log-linear extrapolation along the same segment); measured 1e-9 on doubles']
-MONITORED = ['aliasing between copies made by Pipeline.update_slurries (shared mutable containers) - outside the value-semantics model; '
-             'every copy is compared with a freshly built object on every run']
+MONITORED = ['aliasing between copies made by Pipeline.update_slurries beyond the extracted structural facts (containers reached through attributes the extractor does '
+             'not know) - outside the value-semantics model; every copy is compared with a freshly built object, twice, on every run']
 RULE = ('all histories to depth 2 (quick) / 3 (thorough) over 9 setters/generate_GSD x 2 values with reads interleaved, random histories to depth 12, '
         'pipelines with two diameters (copies); each final state compared with a freshly built object on every observable; '
         'non-trivial = distinct histories that change at least one parameter after a read')
@@ -288,9 +290,13 @@ def monitor(ctx, extended=False):
         dias = ctx.rng.sample([0.4, 0.5, 0.65, 0.762, 0.9], 2)
         if ctx.rng.random() < 0.7:
             dias[ctx.rng.randrange(2)] = st['Dp']
+        log = []
+        if ctx.rng.random() < 0.5:
+            # the slurry was plotted / tabulated before the pipeline was built on it: the copies are taken from an object that already holds its tables
+            _ = base.im_curves, base.LDV_curves
+            log.append('slurry curves read before the pipeline was built')
         pl = Pipeline(pipe_list=[Pipe('a', dias[0], 0.0, 0.5, -5.0), Pipe('b', dias[0], 200.0, 0.2, 1.0), Pipe('c', dias[1], 500.0, 1.0, 2.0)],
                       slurry=base)
-        log = []
         try:
             for _ in range(ctx.rng.randint(0, 4)):
                 r = ctx.rng.random()
@@ -310,8 +316,8 @@ def monitor(ctx, extended=False):
                     _ = pl.slurries[d].im_curves if ctx.rng.random() < 0.5 else pl.slurries[d].GSD
                     log.append(f'read slurries[{d}]')
                 elif r < 0.85:
-                    _ = pl.slurry.GSD
-                    log.append('read pipeline.slurry.GSD')
+                    _ = pl.slurry.GSD if ctx.rng.random() < 0.5 else pl.slurry.im_curves
+                    log.append('read pipeline.slurry (GSD or curves)')
                 else:
                     n = ctx.rng.choice(['D50', 'rhos', 'fluid'])
                     v = ctx.rng.choice(VALUES[n])
@@ -322,7 +328,8 @@ def monitor(ctx, extended=False):
             st['Dp'] = pl.slurry.Dp
             order = list(pl.slurries.keys()) + ['main']
             ctx.rng.shuffle(order)
-            for d in order:
+            # every object is looked at twice: the second look comes after all its siblings have generated their tables
+            for d in order + order:
                 ctx.count('evaluations')
                 o = pl.slurry if d == 'main' else pl.slurries[d]
                 f = fresh(dict(st, Dp=(st['Dp'] if d == 'main' else d)))
